@@ -28,6 +28,9 @@ class Color(enum.Enum):
 
 
 N = typing.NewType("N", int)
+T = typing.TypeVar("T")
+S = typing.TypeVar("S")
+TYPEVARS = {"T": T, "S": S}
 
 CLASSES = {
     "object": object,
